@@ -575,6 +575,25 @@ class Runner:
                 or ts['total_size_loose'] != sum(len(b) for b in raw['loose'].values()) \
                 or ts['total_size_packfiles_on_disk'] != sum(len(b) for p, b in raw['packs'].items() if p >= 0):
             raise Fail({'C10'}, f'get_total_size {dict(ts)} differs from the sums over index/loose/packs')
+        # the same numbers and count_objects from the extracted model (Totals.totals_of) on the raw state
+        nbytes = sum(len(b) for b in raw['packs'].values()) + sum(len(b) for b in raw['loose'].values())
+        if nbytes <= 300000 and all(p >= 0 for p in raw['packs']):
+            import subprocess
+            import common
+            allkeys = sorted({r[1] for r in raw['rows']} | set(raw['loose']))
+            rk = {k: i for i, k in enumerate(allkeys)}
+            line = ('totals | ' + ','.join(f'{rk[r[1]]}:{r[2]}:{r[3]}:{r[4]}:{1 if r[5] else 0}:{r[6]}' for r in raw['rows']) + ' | '
+                    + ','.join(f'{p}:{len(b)}' for p, b in sorted(raw['packs'].items())) + ' | ' + ','.join(f'{rk[k]}:{len(b)}' for k, b in raw['loose'].items()))
+            pr = subprocess.run([os.path.join(common.OCAML, 'driver')], input=line + '\n', capture_output=True, text=True, timeout=120)
+            co = c.count_objects()
+            impl = [ts['total_size_packed'], ts['total_size_packed_on_disk'], ts['total_size_packfiles_on_disk'], ts['total_size_loose'],
+                    co['packed'], co['loose'], co['pack_files']]
+            mod = pr.stdout.split()
+            self.totals_compared = getattr(self, 'totals_compared', 0) + 1
+            if pr.returncode != 0 or mod != [str(x) for x in impl]:
+                raise Fail({'C10', 'C02'}, f'get_total_size/count_objects {impl} differ from Totals.totals_of on the raw state: {pr.stdout.strip()[:120]} {pr.stderr[-120:]}')
+            if impl[1] > impl[2]:
+                raise Fail({'C10', 'C09'}, f'the index accounts for {impl[1]} stored bytes but the pack files hold only {impl[2]}')
         if kind in ('pack', 'repack'):
             mode = op.get('mode') or {'true': 'yes', 'false': 'no'}.get(op.get('compress'), op.get('compress'))
             prev = {r[1]: r for r in before['rows']} if before else {}
